@@ -31,13 +31,19 @@ from checks import layoutlib
 THEOREMS = ["Mmtk.Pages.accounting_exact", "Mmtk.Pages.accounting_exact_quiescent", "Mmtk.Pages.reserved_eq_committed_plus_pending",
             "Mmtk.Pages.no_underflow", "Mmtk.Pages.granted_disjoint_aligned_in_space", "Mmtk.Pages.page_granted_once",
             "Mmtk.Pages.monoAlloc_grantable", "Mmtk.Pages.inv_init", "Mmtk.Pages.inv_step", "Mmtk.Pages.Reachable.inv"]
-MONO_THEOREMS = []   # filled below
+MONO_THEOREMS = ["Mmtk.Map32.finish_spec", "Mmtk.Map32.allocPages_spec", "Mmtk.Map32.acquire_spec", "Mmtk.Map32.grow_zero_same",
+                 "Mmtk.Map32.monoOK_frame", "Mmtk.Map32.frame_grow", "Mmtk.Map32.frame_release", "Mmtk.Map32.frame_releaseAll", "Mmtk.Map32.frame_pstep",
+                 "Mmtk.Map32.minv_init", "Mmtk.Map32.minv_malloc", "Mmtk.Map32.minv_fl", "Mmtk.Map32.minv_reset", "Mmtk.Map32.minv_step",
+                 "Mmtk.Map32.mono_history_inv", "Mmtk.Map32.mono_grant_in_space", "Mmtk.Map32.mono_grant_ne_zero", "Mmtk.Map32.mono_grants_disjoint",
+                 "Mmtk.Map32.mono_counters_exact", "Mmtk.Map32.mono_fail_changes_nothing_partial",
+                 "Mmtk.Map32.growth_failure_without_special_case_grants_zero", "Mmtk.Map32.failed_growth_forgets_current_region",
+                 "Mmtk.Map32.reset_after_failed_growth_keeps_chunks", "Mmtk.Map32.debug_self_deadlock_after_two_chunk_grant"]
 PAGE = 4096
 PLANS = ["NoGC", "SemiSpace", "GenCopy", "GenImmix", "MarkSweep", "PageProtect", "Immix", "MarkCompact", "StickyImmix", "ConcurrentImmix"]
 
 META = {
     "text": "Lean: a page resource shared by any number of threads, one transition per ATOMIC action (reserve_pages, the grant under the acquire_lock, the two counter updates of commit_pages, clear_request, the two fetch_subs of accounting.release, reset); proved for every reachable state, i.e. every interleaving: reserved = granted + pending of every thread, committed = granted + not-yet-subtracted releases, both equal the granted pages at quiescence (accounting_exact*), no counter update underflows (no_underflow), live grants are pairwise disjoint, inside the space and page aligned (granted_disjoint_aligned_in_space); the monotone cursor bump is shown to be a legal page supplier. Tie: a real contiguous MonotonePageResource is diffed exactly against the model on generated histories; T real threads race for blocks of a real private BlockPageResource with an empty pool (slow path + retry branch) and the counters are judged at quiescence; GC runs of 10 plans with the event log on are replayed by the Lean monitor (every get_new_pages / release_pages / release_block / reset / reset_cursor / reserve / clear_request event) and the model's counters are compared with the real per-space counters at every `stats`.",
-    "note": "Proof over the model; partial w.r.t. the code (hand transcription tied by sampling). The free-list / block-pool / chunk supplier is abstract (`free` page set: its correctness is C26/C19/C29); discontiguous spaces and the Compressor (needs the unified_ref build) are not run; FreeListPageResource is tied through the GC runs only, BlockPageResource through the GC runs and the real-thread race (oracle only: the grants of a race are schedule dependent, the counters at quiescence are not). Trusted: Lean kernel, hx_gc event log (HX_GC_EVENTS.md), mmtk_verif accessors.",
+    "note": "Proof over the model; partial w.r.t. the code (hand transcription tied by sampling). The free-list / block-pool / chunk supplier is abstract (`free` page set: its correctness is C26/C19/C29); discontiguous MONOTONE spaces are covered by Props/C28Mono.lean (MonotonePageResource::alloc_pages / reset over the Map32 model of C29, any number of resources sharing the pool: mono_grant_in_space, mono_grants_disjoint, mono_counters_exact for every protocol-respecting history; `a failed request changes nothing` only as mono_fail_changes_nothing_partial — the code zeroes cursor/sentinel/current chunk on a failed growth, after which reset() releases no chunk: known findings mono:failed-growth-forgets-region, mono:reset-keeps-chunks, and debug builds self-deadlock after a grant of >= 2 chunks: mono:debug-self-deadlock-after-multichunk-grant) and tied by an exact differential of real MonotonePageResource::new_discontiguous instances over a private Map32 (pool exhausted from either side, fragmented, retried, reset); discontiguous free-list spaces in GC runs and the Compressor (needs the unified_ref build) are not run; FreeListPageResource is tied through the GC runs only, BlockPageResource through the GC runs and the real-thread race (oracle only: the grants of a race are schedule dependent, the counters at quiescence are not). Trusted: Lean kernel, hx_gc event log (HX_GC_EVENTS.md), mmtk_verif accessors.",
     "technique": "Lean 4 proof (inductive invariant over all interleavings of atomic counter steps) + exact unit differential + event-log monitor on real GC runs",
     "category": "proof",
 }
